@@ -86,7 +86,148 @@ func (c *Contracts) prelude(uses []string, forSolver string) (string, []string) 
 	return sb.String(), used
 }
 
-func (q *Query) script(c *Contracts) (string, []string) {
+func (q *Query) script(c *Contracts) (string, []string) { return q.scriptWith(c, q.PC) }
+
+// symbolsOf returns the declared symbols (run constants) occurring in a term.
+func symbolsOf(t string, declared map[string]bool) []string {
+	var out []string
+	i := 0
+	for i < len(t) {
+		c := t[i]
+		switch {
+		case c == '"':
+			i++
+			for i < len(t) {
+				if t[i] == '"' {
+					if i+1 < len(t) && t[i+1] == '"' {
+						i += 2
+						continue
+					}
+					break
+				}
+				i++
+			}
+			i++
+		case c == '|':
+			j := strings.IndexByte(t[i+1:], '|')
+			if j < 0 {
+				return out
+			}
+			tok := t[i : i+j+2]
+			if declared[tok] {
+				out = append(out, tok)
+			}
+			i += j + 2
+		case c == '(' || c == ')' || c == ' ' || c == '\n' || c == '\t':
+			i++
+		default:
+			j := i
+			for j < len(t) && t[j] != '(' && t[j] != ')' && t[j] != ' ' && t[j] != '\n' {
+				j++
+			}
+			tok := t[i:j]
+			if declared[tok] {
+				out = append(out, tok)
+			}
+			i = j
+		}
+	}
+	return out
+}
+
+// slicePC keeps the assumptions connected to the goal through shared symbols. Dropping assumptions is
+// always sound for a validity query. With hubLimit > 0, symbols occurring in more than hubLimit
+// assumptions do not connect (heap arrays, loop counters shared by everything).
+func (q *Query) slicePC(hubLimit int) []string {
+	if q.Run == nil {
+		return q.PC
+	}
+	declared := q.Run.declSet
+	syms := make([][]string, len(q.PC))
+	count := map[string]int{}
+	for i, a := range q.PC {
+		seen := map[string]bool{}
+		for _, s := range symbolsOf(a, declared) {
+			if !seen[s] {
+				seen[s] = true
+				syms[i] = append(syms[i], s)
+				count[s]++
+			}
+		}
+	}
+	hub := func(s string) bool { return hubLimit > 0 && count[s] > hubLimit }
+	cone := map[string]bool{}
+	for _, s := range symbolsOf(q.Goal, declared) {
+		cone[s] = true
+	}
+	in := make([]bool, len(q.PC))
+	for changed := true; changed; {
+		changed = false
+		for i := range q.PC {
+			if in[i] {
+				continue
+			}
+			hit := len(syms[i]) == 0
+			for _, s := range syms[i] {
+				if cone[s] && !hub(s) {
+					hit = true
+					break
+				}
+			}
+			if !hit && hubLimit > 0 {
+				// all symbols already in the cone (possibly hubs)
+				all := true
+				for _, s := range syms[i] {
+					if !cone[s] {
+						all = false
+						break
+					}
+				}
+				hit = all
+			}
+			if hit {
+				in[i] = true
+				changed = true
+				for _, s := range syms[i] {
+					cone[s] = true
+				}
+			}
+		}
+	}
+	var out []string
+	for i, a := range q.PC {
+		if in[i] {
+			out = append(out, a)
+		}
+	}
+	return out
+}
+
+// dropHeavy removes byte-heap and substring facts when the goal does not talk about them.
+func (q *Query) dropHeavy(pc []string) []string {
+	heavy := []string{"Hb", "str.substr"}
+	var active []string
+	for _, h := range heavy {
+		if !strings.Contains(q.Goal, h) {
+			active = append(active, h)
+		}
+	}
+	var out []string
+	for _, a := range pc {
+		drop := false
+		for _, h := range active {
+			if strings.Contains(a, h) {
+				drop = true
+			}
+		}
+		if !drop {
+			out = append(out, a)
+		}
+	}
+	return out
+}
+
+func (q *Query) scriptWith(c *Contracts, pc []string) (string, []string) {
 	pre, used := c.prelude(q.Uses, "")
 	var sb strings.Builder
 	sb.WriteString("(set-option :produce-models true)\n(set-logic ALL)\n")
@@ -97,7 +238,7 @@ func (q *Query) script(c *Contracts) (string, []string) {
 			sb.WriteByte('\n')
 		}
 	}
-	for _, a := range q.PC {
+	for _, a := range pc {
 		fmt.Fprintf(&sb, "(assert %s)\n", a)
 	}
 	if !q.Cover {
@@ -150,12 +291,54 @@ func trunc(s string, n int) string {
 
 // solve discharges one query: old z3 first (fast on the common case), then all three raced.
 func solve(q *Query, c *Contracts, dir string, timeout int, cross bool) *SolveResult {
-	script, _ := q.script(c)
+	first := timeout
+	if !q.Cover && !cross && timeout > 3 {
+		first = 3
+	}
+	res := solveScript(q, c, dir, first, cross, q.PC, "")
+	if res.Status != "unknown" || q.Cover || q.Run == nil {
+		return res
+	}
+	// sliced variants (sound: fewer assumptions); only unsat answers count
+	for k := 0; k < 3; k++ {
+		var pc []string
+		switch k {
+		case 0:
+			pc = q.dropHeavy(q.PC)
+		case 1:
+			pc = q.slicePC(0)
+		case 2:
+			pc = q.dropHeavy(q.slicePC(0))
+		}
+		if len(pc) == len(q.PC) {
+			continue
+		}
+		r2 := solveScript(q, c, dir, timeout, false, pc, fmt.Sprintf(".s%d", k))
+		res.Seconds += r2.Seconds
+		if r2.Status == "unsat" {
+			r2.Seconds = res.Seconds
+			r2.Solver += fmt.Sprintf(" (sliced %d/%d assumptions)", len(pc), len(q.PC))
+			for s, o := range res.Outputs {
+				r2.Outputs["full:"+s] = o
+			}
+			return r2
+		}
+	}
+	if first < timeout {
+		r3 := solveScript(q, c, dir, timeout, cross, q.PC, "")
+		r3.Seconds += res.Seconds
+		return r3
+	}
+	return res
+}
+
+func solveScript(q *Query, c *Contracts, dir string, timeout int, cross bool, pc []string, tag string) *SolveResult {
+	script, _ := q.scriptWith(c, pc)
 	fn := strings.NewReplacer("/", "_", " ", "_", "*", "", "(", "", ")", "", ":", "_", "|", "_", "$", "_").Replace(q.Name)
 	if len(fn) > 180 {
 		fn = fn[:180]
 	}
-	file := filepath.Join(dir, fmt.Sprintf("%s.%d.smt2", fn, q.seq))
+	file := filepath.Join(dir, fmt.Sprintf("%s.%d%s.smt2", fn, q.seq, tag))
 	os.WriteFile(file, []byte(script), 0o644) //nolint:errcheck
 	res := &SolveResult{Status: "unknown", Outputs: map[string]string{}, File: file}
 	start := time.Now()
@@ -174,24 +357,7 @@ func solve(q *Query, c *Contracts, dir string, timeout int, cross bool) *SolveRe
 	if timeout < quick {
 		quick = timeout
 	}
-	if pref == "" {
-		st, out := runSolver(ctx, solvers[0], file, quick)
-		res.Outputs[solvers[0].name] = trunc(out, 2000)
-		if st == "unsat" && !cross {
-			res.Status, res.Solver, res.Seconds = "unsat", solvers[0].name, time.Since(start).Seconds()
-			return res
-		}
-		if st == "sat" && q.Cover {
-			res.Status, res.Solver, res.Seconds, res.Model = "sat", solvers[0].name, time.Since(start).Seconds(), out
-			return res
-		}
-		if st == "sat" {
-			res.Status, res.Solver, res.Model = "sat", solvers[0].name, out
-		}
-		if st == "unsat" {
-			res.Status, res.Solver = "unsat", solvers[0].name
-		}
-	}
+	_, _ = quick, pref
 	type ans struct {
 		s      solverSpec
 		st, o  string
@@ -200,9 +366,7 @@ func solve(q *Query, c *Contracts, dir string, timeout int, cross bool) *SolveRe
 	var wg sync.WaitGroup
 	n := 0
 	for i, s := range solvers {
-		if i == 0 && pref == "" && (res.Status == "sat" || res.Status == "unsat") {
-			continue // already answered
-		}
+		_ = i
 		n++
 		wg.Add(1)
 		go func(s solverSpec) {
